@@ -8,8 +8,10 @@
 (*    flag    store_true / store_false                                     *)
 (*    count   -v -v                                                        *)
 (*    append  repeatable, values accumulate                                *)
-(* Values are abstract slots (1 = representative, 2 = adversarial); the    *)
-(* harness maps them to concrete text per option and file style.           *)
+(* Values are abstract slots (1 = representative, 2 = adversarial, and for *)
+(* single-valued options that accept them the "falsy" texts 0 = "0",       *)
+(* 3 = "0.0", 4 = "" - a TOML file can hold the first two as bare numbers);*)
+(* the harness maps them to concrete text per option and file style.       *)
 (*                                                                         *)
 (*   Ref(s)   the effective value as the property states it: the command   *)
 (*            line overrides the file, the file overrides the default,     *)
@@ -32,18 +34,18 @@
 (***************************************************************************)
 EXTENDS Naturals, Sequences, FiniteSets, TLC, Json
 
-CONSTANTS Options,   \* <<[key, kind, vk, short, abbrev, destkey]>>
+CONSTANTS Options,   \* <<[key, kind, vk, short, abbrev, destkey, extra]>>  extra: the falsy slots (0, 3, 4) the option accepts
           Formats,   \* subset of {"toml", "cfg", "ini"}: pyproject.toml, setup.cfg, pydoctor.ini
           Vias       \* how the file is found: "default" (by its name, in the working directory) | "config" (--config=PATH)
 
 Absent == [has |-> FALSE, v |-> <<>>]
 Val(v) == [has |-> TRUE, v |-> v]
 
-FileChoices(o) == CASE o.kind = "store"  -> {Absent, Val(<<1>>), Val(<<2>>)}
+FileChoices(o) == CASE o.kind = "store"  -> {Absent, Val(<<1>>), Val(<<2>>)} \cup {Val(<<x>>) : x \in o.extra}
                     [] o.kind = "flag"   -> {Absent, Val(<<1>>), Val(<<0>>)}          \* true / false
                     [] o.kind = "count"  -> {Absent, Val(<<0>>), Val(<<1>>), Val(<<2>>)}
                     [] o.kind = "append" -> {Absent, Val(<<1>>), Val(<<1, 2>>), Val(<<2, 1>>)}
-CliChoices(o)  == CASE o.kind = "store"  -> {Absent, Val(<<1>>), Val(<<2>>)}
+CliChoices(o)  == CASE o.kind = "store"  -> {Absent, Val(<<1>>), Val(<<2>>)} \cup {Val(<<x>>) : x \in o.extra \cap {0}}
                     [] o.kind = "flag"   -> {Absent, Val(<<1>>)}
                     [] o.kind = "count"  -> {Absent, Val(<<1>>), Val(<<2>>)}          \* number of occurrences
                     [] o.kind = "append" -> {Absent, Val(<<1>>), Val(<<2, 1>>)}
@@ -61,7 +63,8 @@ Spellings(o, cli) ==
 FileStyles(o, fmt, file) ==
   IF ~file.has THEN {"none"}
   ELSE IF fmt = "toml"
-       THEN CASE o.kind = "store"  -> {"string"} \cup (IF o.vk = "int" THEN {"native"} ELSE {})
+       THEN CASE o.kind = "store"  -> {"string"}     \* native: a bare TOML integer / float (0, 3, 12, 0.0)
+                                        \cup (IF (o.vk = "int" /\ file.v # <<4>>) \/ file.v \in {<<0>>, <<3>>} THEN {"native"} ELSE {})
               [] o.kind = "flag"   -> {"native", "string"}
               [] o.kind = "count"  -> {"native", "string"}
               [] o.kind = "append" -> {"list"} \cup (IF Len(file.v) = 1 THEN {"scalar"} ELSE {})
